@@ -249,7 +249,10 @@ class config::root : public config
 {
 public:
 	root();
+	root(const root &);
 	virtual ~root();
+	
+	root & operator=(const root &);
 	
 	int assign(const path *, const value * = 0) __MPT_OVERRIDE;
 	int remove(const path *) __MPT_OVERRIDE;
